@@ -621,7 +621,10 @@ def relpath_from_inclusion_element(
     inclusion_parsed: Any = parse_element(inclusion, "include_file", {}, {}, context)
     relpath = inclusion_parsed.include_file
     linenum = inclusion_parsed.line_num or LineTracker("unknown", -1)
-    assert not relpath.startswith("/")  # only relative paths
+    if relpath.startswith("/"):  # only relative paths
+        raise exc.DataGenSyntaxError(
+            f"include_file paths should be relative: {relpath}", **linenum._asdict()
+        )
     return Path(relpath), linenum
 
 
@@ -631,7 +634,7 @@ def parse_included_file(
     relpath, linenum = relpath_from_inclusion_element(inclusion, context)
     inclusion_path = parent_path.parent / relpath
     # someday add a check that we don't go outside of the project dir
-    if not inclusion_path.exists():
+    if not inclusion_path.is_file():
         raise exc.DataGenError(
             f"Cannot load include file {inclusion_path}", **linenum._asdict()
         )
